@@ -4,6 +4,7 @@ import (
 	"fmt"
 	"go/types"
 	"os"
+	"os/exec"
 	"sort"
 	"strings"
 	"sync"
@@ -149,7 +150,7 @@ func Load(repo string, overlay map[string][]byte, patterns []string) (*Engine, e
 	prog, _ := ssautil.AllPackages(pkgs, ssa.InstantiateGenerics)
 	prog.Build()
 	e := &Engine{Prog: prog, Pkgs: pkgs, RepoDir: repo, Sizes: types.SizesFor("gc", "amd64"),
-		SolverBin: []string{"z3", "-in"}, TimeoutMs: 20000, MaxPaths: 50000, MaxCex: 2, Workers: 8,
+		SolverBin: []string{solverBin(), "-in"}, TimeoutMs: 20000, MaxPaths: 50000, MaxCex: 2, Workers: 8,
 		Defaults: Limits{MaxDepth: 400, LoopBound: 64, MaxSteps: 2000000, MapPermMax: 3, Preempt: -1}}
 	if rp := prog.ImportedPackage("runtime"); rp != nil {
 		if t := rp.Type("errorString"); t != nil {
@@ -386,4 +387,16 @@ func (e *Engine) RunAll(hs []*Harness, progress func(*HarnessResult)) []*Harness
 	}
 	wg.Wait()
 	return out
+}
+
+// solverBin: z3 5.1.0 (z3-new) is preferred - z3 4.8.12 needs seconds for trivial UF+BV64 queries in long
+// incremental sessions; VERIF_SOLVER overrides.
+func solverBin() string {
+	if v := os.Getenv("VERIF_SOLVER"); v != "" {
+		return v
+	}
+	if _, err := exec.LookPath("z3-new"); err == nil {
+		return "z3-new"
+	}
+	return "z3"
 }
